@@ -52,10 +52,22 @@ func trieMembersNested(t *trie.Trie, mode, at int) (outer, inner [][]int) {
 	return
 }
 
+var trieCloneCalls int
+
 func trieClone(t *trie.Trie) (*trie.Trie, error) {
 	j, err := json.Marshal(t)
 	if err != nil {
 		return nil, err
+	}
+	// every other time the JSON comes from a direct MarshalJSON call and is held while another trie is marshalled
+	if trieCloneCalls++; trieCloneCalls%2 == 0 {
+		if j, err = t.MarshalJSON(); err != nil {
+			return nil, err
+		}
+		other := trie.New()
+		other.Add([]byte("some other trie, marshalled while the first result is held"))
+		other.MarshalJSON()
+		json.Marshal(other)
 	}
 	t2 := trie.New()
 	if err := json.Unmarshal(j, t2); err != nil {
